@@ -25,7 +25,9 @@ CONSTANT Hist,
 \* second transaction t2 on H's DAG which declares the same payload hash (anybody who saw t's header can publish such a t2 and
 \* encrypt its list to H's public key-agreement key); the peer asks for the payload of t2
 PeerClass == {"unauth", "claimed_listed", "auth_nodid", "auth_unlisted", "auth_listed", "auth_alias_listed"}
-ListKnown == {"known_nopayload", "new"}      \* transaction in an incoming TransactionList: already stored (payload missing) | new
+\* transaction in an incoming TransactionList: already stored (payload missing) | new | new, but the DAG refuses it inside its
+\* write transaction (a second root): nothing of it may stay behind, in particular not the payload that came with it
+ListKnown == {"known_nopayload", "new", "new_unaddable"}
 ListPayload == {"matching", "mismatching", "empty"}
 KeySit    == {"can_decrypt", "not_recipient", "key_missing", "no_node_did"}
 TxClass   == {"public", "private"}
@@ -75,6 +77,15 @@ Receive(pc, inc, hasDid) ==
     /\ Log([a |-> "Receive", peer |-> pc, incoming |-> inc, nodedid |-> hasDid, expect |-> IF inc = "matching" THEN "stored" ELSE "rejected"])
     /\ UNCHANGED <<sent, authed>>
 
+\* PAL.Encrypt + transaction creation (network.CreateTransaction -> dag.PAL.Encrypt): the list is encrypted for EVERY participant or
+\* the creation is refused; a transaction addressed to participants never leaves the node with fewer recipients or without a list
+PartSit == {"all_ok", "one_deactivated", "all_deactivated", "one_without_key", "one_unknown"}
+Create(ps) ==
+    /\ phase = "idle"
+    /\ phase' = "done"
+    /\ Log([a |-> "Create", parts |-> ps, expect |-> IF ps = "all_ok" THEN "encrypted_all" ELSE "refused"])
+    /\ UNCHANGED <<sent, stored, authed>>
+
 \* handleTransactionList -> state.Add: a private transaction arrives in a TransactionList (answer to a range query)
 \* together with payload bytes. A known transaction is ignored entirely (also its payload); a new one is admitted
 \* with the payload only if the payload hashes to its payload hash, without payload if none came, and refused otherwise.
@@ -108,6 +119,7 @@ Next ==
     \/ \E pc \in PeerClass, ks \in KeySit, tc \in TxClass, rq \in Request : Serve(pc, ks, tc, rq)
     \/ \E pc \in {"unauth", "auth_unlisted", "auth_listed"}, inc \in Incoming, hd \in BOOLEAN : Receive(pc, inc, hd)
     \/ \E kn \in ListKnown, pl \in ListPayload : ReceiveList(kn, pl)
+    \/ \E ps \in PartSit : Create(ps)
     \/ \E ac \in AuthCase : Authenticate(ac)
 Spec == Init /\ [][Next]_vars
 
